@@ -24,6 +24,11 @@ pub mod stream {
         fn as_locked_write(&mut self) -> Self::Write<'_>;
     }
 
+    /// Stand-in for `anstream::stream::RawStream` in its Windows form (not used by wincon.rs
+    /// today; present so that a future `use` of it does not stop the port from building).
+    pub trait RawStream: std::io::Write + IsTerminal + anstyle_wincon::WinconStream {}
+    impl<T: std::io::Write + IsTerminal + anstyle_wincon::WinconStream + ?Sized> RawStream for T {}
+
     // the same two blanket impls the real module has
     impl<T: IsTerminal + ?Sized> IsTerminal for &mut T {
         fn is_terminal(&self) -> bool {
@@ -50,3 +55,6 @@ mod fmt;
 mod wincon;
 
 pub use wincon::WinconStream;
+
+// names wincon.rs could plausibly reach for through `crate::`
+pub use anstream::ColorChoice;
